@@ -22,10 +22,12 @@ if os.path.exists(p):
     for r in rows:
         m = json.load(open(os.path.join(V, "seeded", r["id"], "meta.json")))
         cls = "; ".join(sorted(set(c for v in r.get("checks", {}).values() for c in v["classes"])))
-        verdict = "**caught**" if r.get("caught") else ("missed — outside the claim: " + m["outside_claim"] if m.get("outside_claim") else "**MISSED**")
+        verdict = "**caught**" if r.get("caught") else ("missed — outside the claim: " + m["outside_claim"] if m.get("outside_claim") else ("missed by the quick tier — " + m["thorough_only"] if m.get("thorough_only") else "**MISSED**"))
         t.append("| `%s` | %s | %s — *needs:* %s | %s | %s |" % (r["id"], r["property"], m.get("breaks", ""), m.get("needs_to_manifest", ""), verdict, cls))
     c = sum(1 for r in rows if r.get("caught"))
-    outside = sum(1 for r in rows if not r.get("caught") and json.load(open(os.path.join(V, "seeded", r["id"], "meta.json"))).get("outside_claim"))
-    t.append("\n%d of %d caught by the quick tier; %d missed because they break a clause that is not claimed (or, in one case, no clause at all); %d missed otherwise." % (c, len(rows), outside, len(rows) - c - outside))
+    metas = {r["id"]: json.load(open(os.path.join(V, "seeded", r["id"], "meta.json"))) for r in rows}
+    outside = sum(1 for r in rows if not r.get("caught") and metas[r["id"]].get("outside_claim"))
+    thor = sum(1 for r in rows if not r.get("caught") and not metas[r["id"]].get("outside_claim") and metas[r["id"]].get("thorough_only"))
+    t.append("\n%d of %d caught by the quick tier; %d more by the thorough tier only; %d not caught because they break a clause that is not claimed (or no clause at all); %d missed inside the claim." % (c, len(rows), thor, outside, len(rows) - c - outside - thor))
     block("SEEDED", "\n".join(t))
 open(os.path.join(V, "DESIGN.md"), "w").write(d)
